@@ -4,6 +4,8 @@
 #include "util/sorted_uniform.hh"
 #include "util/probing_hash_table.hh"
 #include "lm/trie.hh"
+#include "lm/bhiksha.hh"
+#include "lm/config.hh"
 
 #include <cstdio>
 #include <cstdlib>
@@ -141,6 +143,69 @@ int main() {
         if (!a.base) { o << " lost:" << std::hex << recs[i].second; continue; }
         o << ' ' << std::hex << util::ReadInt57(a.base, a.offset, quant, (1ULL << quant) - 1);
       }
+    } else if (cmd == "TM") {
+      // lm/trie.cc BitPackedMiddle<DontBhiksha | ArrayBhiksha> as an array of (word, payload, next pointer) records:
+      // TM <D|A> <pointer_bhiksha_bits> <max_vocab> <payload bits> <word:payload:children>...   (words strictly increasing)
+      // the next pointers come from a BitPackedLongest whose insert index is advanced by `children` after each record
+      std::string kind, bb, mv, qb, x; in >> kind >> bb >> mv >> qb;
+      uint64_t max_vocab = hx(mv); uint8_t quant = hx(qb);
+      std::vector<std::vector<uint64_t> > recs;
+      uint64_t total_children = 0;
+      while (in >> x) {
+        size_t c1 = x.find(':'), c2 = x.find(':', c1 + 1);
+        std::vector<uint64_t> r; r.push_back(hx(x.substr(0, c1))); r.push_back(hx(x.substr(c1 + 1, c2 - c1 - 1))); r.push_back(hx(x.substr(c2 + 1)));
+        total_children += r[2]; recs.push_back(r);
+      }
+      lm::ngram::Config config; config.pointer_bhiksha_bits = hx(bb);
+      const size_t guard = 32;
+      uint64_t lsize = lm::ngram::trie::BitPackedLongest::Size(0, total_children, max_vocab);
+      std::vector<unsigned char> lmem(lsize + guard, 0);
+      lm::ngram::trie::BitPackedLongest longest; longest.Init(&lmem[0], 0, max_vocab);
+      uint64_t size; std::vector<unsigned char> mem;
+      std::vector<std::string> got(recs.size());
+      if (kind == "A") {
+        typedef lm::ngram::trie::BitPackedMiddle<lm::ngram::trie::ArrayBhiksha> Mid;
+        size = Mid::Size(quant, recs.size(), max_vocab, total_children, config);
+        mem.assign(size + guard, 0); for (size_t i = 0; i < guard; ++i) mem[size + i] = 0xa5;
+        Mid mid(&mem[0], quant, recs.size(), max_vocab, total_children, longest, config);
+        uint64_t child = 0;
+        for (size_t i = 0; i < recs.size(); ++i) {
+          util::BitAddress a = mid.Insert(recs[i][0]);
+          util::WriteInt57(a.base, a.offset, quant, recs[i][1]);
+          for (uint64_t c = 0; c < recs[i][2]; ++c) longest.Insert((child++) % (max_vocab + 1));
+        }
+        mid.FinishedLoading(longest.InsertIndex(), config);
+        for (size_t i = 0; i < recs.size(); ++i) {
+          lm::ngram::trie::NodeRange range; range.begin = 0; range.end = recs.size(); uint64_t ptr = 0;
+          util::BitAddress a = mid.Find(recs[i][0], range, ptr);
+          std::ostringstream g;
+          if (!a.base) g << "lost"; else g << std::hex << util::ReadInt57(a.base, a.offset, quant, (1ULL << quant) - 1) << ':' << ptr << ':' << range.begin << ':' << range.end;
+          got[i] = g.str();
+        }
+      } else {
+        typedef lm::ngram::trie::BitPackedMiddle<lm::ngram::trie::DontBhiksha> Mid;
+        size = Mid::Size(quant, recs.size(), max_vocab, total_children, config);
+        mem.assign(size + guard, 0); for (size_t i = 0; i < guard; ++i) mem[size + i] = 0xa5;
+        Mid mid(&mem[0], quant, recs.size(), max_vocab, total_children, longest, config);
+        uint64_t child = 0;
+        for (size_t i = 0; i < recs.size(); ++i) {
+          util::BitAddress a = mid.Insert(recs[i][0]);
+          util::WriteInt57(a.base, a.offset, quant, recs[i][1]);
+          for (uint64_t c = 0; c < recs[i][2]; ++c) longest.Insert((child++) % (max_vocab + 1));
+        }
+        mid.FinishedLoading(longest.InsertIndex(), config);
+        for (size_t i = 0; i < recs.size(); ++i) {
+          lm::ngram::trie::NodeRange range; range.begin = 0; range.end = recs.size(); uint64_t ptr = 0;
+          util::BitAddress a = mid.Find(recs[i][0], range, ptr);
+          std::ostringstream g;
+          if (!a.base) g << "lost"; else g << std::hex << util::ReadInt57(a.base, a.offset, quant, (1ULL << quant) - 1) << ':' << ptr << ':' << range.begin << ':' << range.end;
+          got[i] = g.str();
+        }
+      }
+      bool guard_ok = true;
+      for (size_t i = 0; i < guard; ++i) if (mem[size + i] != 0xa5) guard_ok = false;
+      o << (guard_ok ? "guard-ok" : "GUARD-OVERWRITTEN");
+      for (size_t i = 0; i < got.size(); ++i) o << ' ' << got[i];
     } else o << "?";
     std::cout << o.str() << '\n';
   }
